@@ -1137,7 +1137,8 @@ impl Read for Message<'_> {
             Self::Encrypted { edata, .. } => edata.read(buf),
         }?;
 
-        if read == 0 {
+        // a zero-length read says nothing about the end of the stream
+        if read == 0 && !buf.is_empty() {
             self.check_trailing_data()?;
         }
 
